@@ -35,7 +35,9 @@ OriginOf(o) == {<<x[1], x[2]>> : x \in SeqToSet(o.origin)}
 OriginBad(o, T, org) ==
   \E x \in SeqToSet(o.origin) :
      /\ x[1] \in DOMAIN org
-     /\ x[2] # (IF org[x[1]] = New THEN "new" ELSE org[x[1]])
+     \* (observed and specified origins are both sequences of strings: New,
+     \*  a location, or <<"partial">> \o location for a subtree found in pieces)
+     /\ x[2] # org[x[1]]
 \* C10 compares the engine's bookkeeping with the hierarchy as observed
 \* (o.tree has the shape of a specification tree)
 NoDup(q) == \A i, j \in 1..Len(q) : i # j => q[i] # q[j]
